@@ -264,7 +264,14 @@ example : ∃ A B, assemble [] progP = .ok A ∧ assemble [] (progP ++ extP) = .
   obtain ⟨B, hB⟩ := assemble_of_okPlainB (fs := []) progPP_ok
   exact ⟨A, B, hA, hB, (C18_R4 [] progP extP A B hA hB).1⟩
 
-/-! ## R1 relocation and R2 renaming (stated only, not proved, truth not examined) -/
+/-! ## R1 relocation and R2 renaming (first formalisation; R1 is PROVED in `Props/C18Reloc*.lean`, R2 partly in
+`Props/C18Rename.lean`)
+
+`C18_R1_Statement` below is the first formalisation. It is too loose in one place that has nothing to do with
+the assembler: `orgLine lab n` accepts ANY string as `lab`, and `lab = "X NOP ;"` turns the line into a NOP with a
+comment (`C18_R1_Statement_false` in `Props/C18RelocText.lean`). `C18_R1_Repaired` there adds `lab.all isLabelCh`
+and `n < 65536` for the first line and is proved (`C18_R1`); `C18_R1_code` gives the byte-level half (identical
+bytes, or the 16-bit field of an absolute own-label reference moved by exactly `D`). -/
 
 /-- an ORG line in a fixed layout -/
 def orgLine (lab : Str) (n : Nat) : Str := lab ++ " ORG $".toList ++ fmtHex 4 n ++ ['\n']
@@ -324,7 +331,7 @@ def C18_R2_Statement : Prop :=
 def C18_Statement : Prop :=
   C18_R1_Statement ∧ C18_R2_Statement ∧ C18_R3_Statement ∧ C18_R4_Statement
 
-/-- what is proved of C18: R3 and R4 in full (R1 and R2 are stated only) -/
+/-- what is proved of C18 in this file: R3 and R4 in full (R1: `Props/C18RelocText.lean`; R2 partial: `Props/C18Rename.lean`) -/
 theorem C18_partial : C18_R3_Statement ∧ C18_R4_Statement := ⟨C18_R3, C18_R4⟩
 
 end CoCo.Props
